@@ -2,6 +2,7 @@
 
 import os
 import sys
+from decimal import Decimal
 from typing import Any
 
 from .exceptions import LiquidValueError
@@ -55,6 +56,18 @@ def to_int(val: Any) -> int:
         raise LiquidValueError(
             f"integer string conversion limit ({MAX_STR_INT}) reached: "
             f"value has {len(val)} digits",
+            token=None,
+        )
+    if (
+        isinstance(val, Decimal)
+        and MAX_STR_INT != 0
+        and val.is_finite()
+        and val.adjusted() >= MAX_STR_INT
+    ):
+        # int(Decimal("1E+999999999")) would build an integer of a billion digits.
+        raise LiquidValueError(
+            f"integer conversion limit ({MAX_STR_INT}) reached: "
+            f"value has {val.adjusted() + 1} digits",
             token=None,
         )
     return int(val)
